@@ -165,7 +165,11 @@ def history_program(en, encs, rnd: random.Random, at: int) -> Tuple[Dict[str, in
         e = rnd.choice(encs)
         code += e
     # unbalanced calls / returns so that the call bookkeeping is non-trivial
-    code += rnd.choice([bytes([0x04, (at + len(code) + 3) & 0xFF, ((at + len(code) + 3) >> 8) & 0xFF]), bytes([0x06]), bytes([0x00])])
+    nxt = at + len(code)
+    code += rnd.choice([bytes([0x04, (nxt + 3) & 0xFF, ((nxt + 3) >> 8) & 0xFF]),                      # CALL  next
+                        bytes([0x05, (nxt + 4) & 0xFF, ((nxt + 4) >> 8) & 0xFF, ((nxt + 4) >> 16) & 0x0F]),   # CALLF next
+                        bytes([0x05, (nxt + 4) & 0xFF, ((nxt + 4) >> 8) & 0xFF, ((nxt + 4) >> 16) & 0x0F]),
+                        bytes([0xFE]), bytes([0x06]), bytes([0x07]), bytes([0x00])])
     regs, mem = en.build_case(code, st, code_at=at)
     return regs, mem, k + 1
 
@@ -174,6 +178,10 @@ def make_groups(en, tier: str, seed: int):
     rnd = random.Random(seed + 7)
     encs = en.valid_structures("quick", seed)
     probes = encs if tier != "quick" else encs[:: 12]
+    # control transfers and stack instructions are always probed (their bookkeeping is the hidden state the property names)
+    CONTROL = set(range(0x00, 0x08)) | set(range(0x10, 0x20)) | {0xFE, 0xFF, 0x4F, 0x5F} | set(range(0x28, 0x30)) | set(range(0x38, 0x40))
+    seen_p = set(probes)
+    probes = probes + [e for e in encs[:: 1 if tier != "quick" else 3] if en.opcode_of(e) in CONTROL and e not in seen_p]
     hist_encs = [e for e in encs if en.opcode_of(e) not in (0xDE, 0xDF, 0xFF)]     # (a history may halt; power is restored anyway)
     groups = []
     gid = 0
